@@ -38,13 +38,13 @@ def per_source(htx):
     return d
 
 
-def run_up(root, cfg, fmt=None, quiet=False):
+def run_up(root, cfg, fmt=None, quiet=False, cwd=None):
     args = ['up', cfg]
     if fmt:
         args += ['--format', fmt, '-v']
     if quiet:
         args.append('-q')
-    return B.tally(root, *args)
+    return B.tally(cwd or root, *args)
 
 
 def judge(rec, rnd, tmp, k):
@@ -264,7 +264,7 @@ def judge(rec, rnd, tmp, k):
         if sum(len(s['exp']) for s in others) == 0:
             return
         path = os.path.join(base, b['sources'][i]['settings']['file'])
-        fault = rnd.choice(['missing', 'directory', 'invalid-utf8', 'bad-regex-delimiter', 'oversized-field'])
+        fault = rnd.choice(['missing', 'missing', 'directory', 'invalid-utf8', 'bad-regex-delimiter', 'oversized-field'])
         if fault == 'bad-regex-delimiter':
             # a delimiter pattern that does not compile: the failure is of another exception type (re.error) than an unreadable file
             saved = dict(b['sources'][i]['settings'])
@@ -284,7 +284,19 @@ def judge(rec, rnd, tmp, k):
             with open(path, 'w', encoding='utf-8') as f:
                 f.write('Date,Desc,Amt\n2025-01-05,"never closed ' + 'x' * 140000 + '\n2025-01-06,OK,5.00\n')
         quiet = rnd.random() < .5
-        pq = run_up(root, cfg, quiet=quiet)
+        decoy = None
+        if fault == 'missing' and rnd.random() < .6:
+            # the command is started from ANOTHER folder that happens to hold a file under the same relative name (the user stands in last
+            # year's budget): a source that is missing from THIS budget is missing, it is not looked up relative to where the user stands
+            decoy = root + '-decoy'
+            rel = b['sources'][i]['settings']['file']
+            os.makedirs(os.path.dirname(os.path.join(decoy, rel)), exist_ok=True)
+            with open(os.path.join(decoy, rel), 'w', encoding='utf-8') as f:
+                f.write(b['sources'][i]['text'])
+            rec.count('missing_source_with_decoy_in_cwd')
+        pq = run_up(root, cfg, quiet=quiet, cwd=decoy)
+        if decoy:
+            shutil.rmtree(decoy, ignore_errors=True)
         rec.count('cli_runs')
         rec.count('source_fault_checks')
         rec.count('source_fault_quiet' if quiet else 'source_fault_verbose')
